@@ -4,7 +4,7 @@ CONSTANTS
   MaxTrs = 2
   Kinds = {"audio", "video"}
   Dirs = {"sendrecv", "sendonly", "recvonly", "inactive"}
-  Ops = {"addTransceiver", "addTrack", "removeTrack", "stop", "createDC", "offerOnly", "negotiate", "setMid"}
+  Ops = {"addTransceiver", "addTrack", "removeTrack", "stop", "createDC", "offerOnly", "negotiate", "setMid", "presetMid"}
 INIT Init
 NEXT Next
 VIEW view
